@@ -12,6 +12,10 @@ CHECKS = {
    text="Theorems for every outcome sequence, every N/retries/-f/ignore_timeouts and every initial progress over a Gallina model of one run's start/retry loop whose decision procedure (TerminationCheck) is regenerated from the source on every run: gap-free numbering 1..k<=N, failures record nothing, continue-iff the documented policy, bounded starts (N-completed+7), 127 abandons for good. Tied to the real Executor by the prefix-closed tree of all outcome sequences and random long sequences, in-process.",
    note="Trusted: Coq kernel, vm_compute, translator tr_termination.py, scripted subprocess_with_timeout.run in the harness. Adapter parsing is C05/C12. Group abort after exit 127 is checked on the implementation under all three schedulers by the oracle.",
    technique="Rocq proof (induction over outcome lists, measure argument) + translated decision procedure + exhaustive tree correspondence"),
+ "C15": dict(
+   text="The streaming update (StatisticProperties.add_sample) is regenerated from the source on every run over an abstract arithmetic signature. Theorems over R for every non-empty sample list: count, mean, sum of squared deviations, population std, min, max equal the textbook values; permutation and grouping invariance; position-based and iteration-number-based warm-up exclusion agree; 6-decimal reload keeps means within eps. The binary64 instance of the same generated expression is compared bit for bit with CPython, and live vs reloaded statistics through real sessions.",
+   note="PARTIAL: no floating-point rounding-error bound is proved (identity over R + bit-exact agreement of code and binary64 model + measured distance to exact Fraction arithmetic). Axioms: the standard library's real-number axioms (sig_forall_dec, sig_not_dec, functional_extensionality_dep). Trusted: translator tr_welford.py, Coq PrimFloat = IEEE binary64.",
+   technique="Rocq proof over R (invariant by induction, field) + translated update + bit-exact PrimFloat correspondence"),
 }
 PENDING_REASON = "check not built yet in this round (planned at level proof, see DESIGN.md section 5); not claimed until its check exists"
 
